@@ -49,14 +49,15 @@ def scale_symmetric(A):
 
 class Scaling:
     def __init__(self, var_weights, cons_weights, obj_weight=0):
-        self.var_weights = var_weights
-        self.cons_weights = cons_weights
-
         assert var_weights.ndim == 1
         assert var_weights.dtype in [np.int64, np.int32, np.int16, np.int8]
 
         assert cons_weights.ndim == 1
         assert cons_weights.dtype in [np.int64, np.int32, np.int16, np.int8]
+
+        # Differences of weights must not overflow a narrow integer type
+        self.var_weights = var_weights.astype(np.int64, copy=False)
+        self.cons_weights = cons_weights.astype(np.int64, copy=False)
 
         self.obj_weight = obj_weight
 
